@@ -45,21 +45,24 @@ theorem get_applyCall (a : Tbl IP String) (c : PCall) (j : IP) :
 
 /-! ### the provider primitives -/
 
-/-- `provAssign`: with the provider on, one request is appended; it succeeds iff it is not the failing call -/
-theorem provAssign_plog (s : State) (node : String) (ip : IP) (hon : s.provOn = true) :
+/-- `provAssign` with the provider on: the request is appended to the log with its outcome - or (crash plan: the process
+    dies at this call) nothing happens at all and the caller sees a failure -/
+theorem provAssign_cases (s : State) (node : String) (ip : IP) (hon : s.provOn = true) :
+    ((provAssign s node ip).1 = s ∧ (provAssign s node ip).2 = false) ∨
     (provAssign s node ip).1.plog = s.plog ++ [.assign node ip (provAssign s node ip).2] := by
   unfold provAssign
-  simp [hon]
+  simp only [hon, Bool.not_true, Bool.false_eq_true, ↓reduceIte]
+  split
+  · exact Or.inl ⟨rfl, rfl⟩
+  · exact Or.inr rfl
 
-theorem provUnassign_plog (s : State) (node : String) (ip : IP) (hon : s.provOn = true) :
+theorem provUnassign_cases (s : State) (node : String) (ip : IP) (hon : s.provOn = true) :
+    ((provUnassign s node ip).1 = s ∧ (provUnassign s node ip).2 = false) ∨
     (provUnassign s node ip).1.plog = s.plog ++ [.unassign node ip (provUnassign s node ip).2] := by
   unfold provUnassign
-  simp [hon]
-
-theorem provAssign_alloc (s : State) (node : String) (ip : IP) : (provAssign s node ip).1.alloc = s.alloc := by
-  unfold provAssign; split <;> rfl
-
-theorem provUnassign_alloc (s : State) (node : String) (ip : IP) : (provUnassign s node ip).1.alloc = s.alloc := by
-  unfold provUnassign; split <;> rfl
+  simp only [hon, Bool.not_true, Bool.false_eq_true, ↓reduceIte]
+  split
+  · exact Or.inl ⟨rfl, rfl⟩
+  · exact Or.inr rfl
 
 end Galaxy.PluginC10
